@@ -82,7 +82,7 @@ def gen_scenarios(ck, tier):
         res = list(ex.map(one, plan))
     for (nt, ops, num, drain), r in zip(plan, res):
         ck.add_tlc("Tenancy generator: %d tenants, %d requests, drains %s, %d x 4 behaviours" % (nt, ops, drain.lower(), num), r)
-        for b in r.json_lines:
+        for b in sorted(r.json_lines, key=lambda x: json.dumps(x, sort_keys=True)):     # TLC's workers print in any order
             k = json.dumps(b, sort_keys=True)
             if k not in seen:
                 seen.add(k)
@@ -649,7 +649,6 @@ def run(tier):
     n_self = selftest(ck, blocks, bad, rnd)
     ck.cov["traces_validated_against_impl"] += 2 * (len(scns) - len(bad_scn))
     hist = {}
-    nsearch = nclaim = 0
     for s in scns:
         for r_ in s.steps:
             k = r_["rpc"] if r_["key"] == "valid" else "nokey"
